@@ -9,6 +9,7 @@ import (
 	"fmt"
 	"math"
 	"math/big"
+	"math/rand"
 	"os"
 	"strconv"
 	"strings"
@@ -89,12 +90,42 @@ func TestVerifC39Bounded(t *testing.T) {
 		check(new(Decimal), "1."+strings.Repeat("2345", n/4)+"e3", false)
 		check(new(Decimal), "9"+strings.Repeat("9", n)+"e-"+strconv.Itoa(n), false)
 	}
+	// 3b. mantissas around and above 2^53 (16..21 digits) with the small exponents of the
+	// exact-power-of-ten window, written with and without a decimal point
+	rnd := rand.New(rand.NewSource(39))
+	nlong := 3000
+	if thorough {
+		nlong = 60000
+	}
+	for i := 0; i < nlong; i++ {
+		nd := 16 + rnd.Intn(6)
+		var sb strings.Builder
+		sb.WriteByte(byte('1' + rnd.Intn(9)))
+		for j := 1; j < nd; j++ {
+			sb.WriteByte(byte('0' + rnd.Intn(10)))
+		}
+		m := sb.String()
+		if i%5 == 0 {
+			m = strconv.FormatUint(1<<53+uint64(rnd.Intn(64))-32, 10)
+		}
+		e := rnd.Intn(51) - 25
+		switch i % 3 {
+		case 0:
+			check(new(Decimal), m+"e"+strconv.Itoa(e), true)
+		case 1:
+			p := 1 + rnd.Intn(len(m)-1)
+			check(new(Decimal), m[:p]+"."+m[p:]+"e"+strconv.Itoa(e), true)
+		default:
+			p := 1 + rnd.Intn(len(m)-1)
+			check(new(Decimal), m[:p]+"."+m[p:], true)
+		}
+	}
 	// 4. one Decimal re-used across parses (hex/binary-exponent then decimal, and back)
 	z := new(Decimal)
 	for _, s := range []string{"0x1p4", "1.5", "0x1.8p1", "2.5e3", "1p3", "0.1", "1e22", "0x10", "123.456e-7"} {
 		check(z, s, false)
 	}
-	rule := "decimal numerals m e k for all mantissas m up to the bound and exponents in [-345,320] (quick: every exponent for m<100, every 7th above), plus named hard cases (halfway, subnormal, overflow, long mantissas up to 1300 digits) and a re-used Decimal; compared bit-for-bit with strconv.ParseFloat; exact flag checked with big.Rat"
+	rule := "decimal numerals m e k for all mantissas m up to the bound and exponents in [-345,320] (quick: every exponent for m<100, every 7th above), plus seeded random mantissas of 16..21 digits (around and above 2^53) with exponents -25..25, with and without a decimal point, named hard cases (halfway, subnormal, overflow, long mantissas up to 1300 digits) and a re-used Decimal; compared bit-for-bit with strconv.ParseFloat; exact flag checked with big.Rat"
 	ss := make([]string, 0, 3)
 	for _, s := range samples {
 		ss = append(ss, fmt.Sprintf("%q", s))
